@@ -98,8 +98,12 @@ def run_case(case, ctx):
     zs = (math.log10(L) - math.log10(S)) / sS
     es = float(norm.cdf(zs))
     # a rounding error of a few ulps in z moves the tail probability by z^2 ulps relatively: d ln Phi(z) / d ln z ~ z^2
-    ctx.check("pf_simple_load==cdf", abs(simple - es) <= (1e-12 + 32 * 2.2e-16 * zs * zs) * es + 1e-300, observed=simple, expected=es,
-              detail={"z": zs})
+    # ... and with a narrow strength scatter z is a small difference of two logarithms: its own relative rounding error is
+    # eps max(|lg L|, |lg S|) / |lg L - lg S|
+    dlg = abs(math.log10(L) - math.log10(S))
+    canc = 1.0 + (max(abs(math.log10(L)), abs(math.log10(S))) / dlg if dlg > 0 else 0.0)
+    ctx.check("pf_simple_load==cdf", abs(simple - es) <= (1e-12 + 32 * 2.2e-16 * zs * zs * canc) * es + 1e-300, observed=simple, expected=es,
+              detail={"z": zs, "cancellation_factor": canc})
     tiny = sS * 1e-3
     lim = float(fp.pf_norm_load(L, tiny))
     el = closed(L, tiny, S, sS)
@@ -131,7 +135,8 @@ def run_case(case, ctx):
             x = np.linspace(math.log10(L) - 8 * sL, math.log10(L) + 8 * sL, npts)
             pdf = norm.pdf(x, loc=math.log10(L), scale=sL)
             errs.append(abs(float(fp.pf_arbitrary_load(x, pdf)) - exp) / exp)
-        ctx.check("pf_arbitrary_load_converges", errs[-1] < 1e-3 and errs[-1] <= errs[0] + 1e-12, observed=errs)
+        # converging: the finest sampling is no worse than the coarsest - or all of them already sit on the rounding floor
+        ctx.check("pf_arbitrary_load_converges", errs[-1] < 1e-3 and errs[-1] <= max(errs[0], 1e-9), observed=errs)
     elif 1e-12 <= exp <= 1e-6:
         # the far tail: the density sampled out to 12 sigma (the points that matter carry a density of 1e-9 .. 1e-30 of the peak)
         ctx.tag("arbitrary_load:far_tail")
